@@ -10,6 +10,7 @@ mod c06;
 mod c15;
 mod c16;
 mod c17;
+mod c19;
 mod walk;
 
 pub struct Opts {
@@ -52,6 +53,7 @@ fn main() {
         "c15" => c15::run(&o, deck),
         "c16" => c16::run(&o, deck),
         "c17" => c17::run(&o, deck),
+        "c19" => c19::run(&o, deck),
         "walk" => walk::run(&o, deck, "walk"),
         x => {
             eprintln!("unknown check {}", x);
